@@ -171,6 +171,7 @@ func (m *minimizer) run() {
 		func(c *Scenario) bool { ok := c.ShutdownAfter != 0; c.ShutdownAfter = 0; return ok },
 		func(c *Scenario) bool { ok := c.Failure != nil; c.Failure = nil; return ok },
 		func(c *Scenario) bool { ok := c.WriteStalls != nil; c.WriteStalls = nil; return ok },
+		func(c *Scenario) bool { ok := c.PartialWrite != 0; c.PartialWrite = 0; return ok },
 		func(c *Scenario) bool { ok := c.SharedCodec; c.SharedCodec = false; return ok },
 		func(c *Scenario) bool { ok := c.Scribble; c.Scribble = false; return ok },
 		func(c *Scenario) bool { ok := c.Consumer.StopAfter != 0; c.Consumer.StopAfter = 0; return ok },
